@@ -109,6 +109,10 @@ def r2_process_event(ctx):
         entries = [ctx.body(F, "reader::ns_reader::NsReader::read_event_impl", "R2")]
         if "async-tokio" in F.features:
             entries += [x for x in F.bodies_matching(r"async_tokio::<impl quick_xml::reader::ns_reader::NsReader<R>>::read_event_into_async::\{closure#0\}$")]
+        # ... and in whatever else hands events to process_event (who-may-call: every caller obeys the same order)
+        for cb, _i, _t in callers_of(F, "reader::ns_reader::NsReader::process_event"):
+            if cb not in entries and not is_derive(cb):
+                entries.append(cb)
         for e in entries:
             if e is None:
                 continue
